@@ -860,9 +860,75 @@ func apiCheckErrors(t *testing.T) {
 	if t.Failed() {
 		return
 	}
+	// several failing branches, generically: over the paths of the C01 fragment, when nothing is selected the step the error
+	// names is the one at which the last reached values run out (no value reaches a later step, some value reaches this one)
+	{
+		pool := refPool()
+		docs := append(refDocs(), `[{"x":{"a":{}}},{}]`, `[{"a":{"a":{}}},{},{"b":[]}]`, `{"a":{},"b":{"a":{"b":{}}},"c":[{},[]]}`)
+		var walk func(prefix []refStep, depth int)
+		walk = func(prefix []refStep, depth int) {
+			if t.Failed() {
+				return
+			}
+			if depth > 0 {
+				path := refRender(prefix)
+				for _, ds := range docs {
+					doc := refDecode(ds, false)
+					k := -1
+					for n := 1; n <= len(prefix); n++ {
+						if len(refEval(prefix[:n], doc)) == 0 {
+							k = n - 1
+							break
+						}
+					}
+					if k < 0 {
+						continue
+					}
+					apiCount()
+					_, err := Retrieve(path, doc)
+					if err == nil {
+						continue // C01's harness reports this
+					}
+					st := prefix[k]
+					texts := []string{st.text}
+					if st.rec {
+						texts = append(texts, "..", strings.TrimPrefix(st.text, ".."))
+					}
+					ok := false
+					for _, tx := range texts {
+						if strings.Contains(err.Error(), "path="+tx+")") {
+							ok = true
+						}
+					}
+					if !ok {
+						t.Errorf("REPRODUCED: %q on %s: the values run out at step %d (%s) but the error names another step: %v", path, ds, k+1, st.text, err)
+						return
+					}
+				}
+			}
+			if depth == 3 {
+				return
+			}
+			for si, st := range pool {
+				if depth == 2 && (st.rec || (!apiThorough && si%2 == 1)) {
+					continue
+				}
+				walk(append(append([]refStep{}, prefix...), st), depth+1)
+			}
+		}
+		walk(nil, 0)
+		if t.Failed() {
+			return
+		}
+	}
 	// several failing branches: the reported step is one reached furthest along the path; there a missing member is
 	// preferred over a type mismatch
 	multi := []struct{ path, doc, want string }{
+		{`$[*][*,*].name.first`, `[{"x":{"name":{}}},{}]`, `member did not exist (path=.first)`},
+		{`$[*]['a',*].name.first`, `[{"a":{"name":{}}},{}]`, `member did not exist (path=.first)`},
+		{`$..[*,*].name.first`, `[[{"name":{}}],[[]]]`, `member did not exist (path=.first)`},
+		{`$.*[*,*]`, `[{}]`, `member did not exist (path=[*,*])`},
+		{`$['a',*]`, `{}`, `member did not exist (path=['a',*])`},
 		{`$..a.b`, `{"c":{"a":1}}`, `type unmatched (expected=object, found=float64, path=.b)`},
 		{`$..x[0]`, `{"k":{"x":"s"}}`, `type unmatched (expected=array, found=string, path=[0])`},
 		{`$.r..a.b.c`, `{"r":{"p":{"q":{"a":true}}}}`, `type unmatched (expected=object, found=bool, path=.b)`},
